@@ -781,6 +781,22 @@ fn gen_case(batch: &str, index: u64, seed: u64) -> Case {
             }
             Case { model: "kernel".into(), x, y: vec![], kernel, c: 1.0, tol: 1e-3, epoch: 1, eps: 0.0, f32m, queries: vec![], budget: 0, tape: TapeSpec::prng(tape_seed), kind: "kernel-closed-form".into() }
         }
+        "svr-hard" => {
+            // the slowly converging corner the fast batch leaves out: large C times large kernel values
+            // (linear / quadratic kernels on features in [-3, 3], C = 100, tol down to 1e-4, n up to 60)
+            let n = pr.usize_in(20, 60);
+            let p = pr.usize_in(2, 5);
+            let x: Vec<Vec<f64>> = (0..n).map(|_| (0..p).map(|_| r.range(-3.0, 3.0)).collect()).collect();
+            let coef: Vec<f64> = (0..p).map(|_| r.range(-2.0, 2.0)).collect();
+            let y: Vec<f64> = x.iter().map(|row| row.iter().zip(&coef).map(|(a, b)| a * b).sum::<f64>() + 0.3 * row[0] * row[0] + r.range(-1.0, 1.0)).collect();
+            let kernel = match pr.below(3) {
+                0 => KSpec { kind: "linear".into(), gamma: 0.0, degree: 0.0, coef0: 0.0 },
+                1 => KSpec { kind: "poly".into(), gamma: 0.5, degree: 2.0, coef0: 1.0 },
+                _ => KSpec { kind: "rbf".into(), gamma: *pr.pick(&[0.1, 0.5]), degree: 0.0, coef0: 0.0 },
+            };
+            let queries = (0..3).map(|_| (0..p).map(|_| r.range(-3.0, 3.0)).collect()).collect();
+            Case { model: "svr".into(), x, y, kernel, c: 100.0, tol: *pr.pick(&[1e-3, 1e-4]), epoch: 0, eps: *pr.pick(&[0.0, 0.1]), f32m: false, queries, budget: 2_000_000_000, tape: TapeSpec::prng(tape_seed), kind: "svr-hard".into() }
+        }
         "svr" | "svr-f32" => {
             let n = pr.usize_in(4, 40);
             let p = pr.usize_in(1, 5);
@@ -868,6 +884,7 @@ impl Property for C10 {
             Batch { name: "svc-forced", count: if q { 8_000 } else { 800_000 }, simulated: true, exhaustive: false, note: "forced identity / reverse / one-class-first / rotated orders for every pass" },
             Batch { name: "svc-f32", count: if q { 4_000 } else { 400_000 }, simulated: true, exhaustive: false, note: "single precision, tolerances scaled" },
             Batch { name: "svr", count: if q { 6_000 } else { 600_000 }, simulated: false, exhaustive: false, note: "schedule-free ride-along: SVR draws nothing; linear / RBF / polynomial degree<=2, C<=10, n<=40; termination judged against an SMO-iteration budget (tick hook)" },
+            Batch { name: "svr-hard", count: if q { 48 } else { 1_500 }, simulated: false, exhaustive: false, note: "schedule-free: the slowly converging corner (C = 100, linear / quadratic / RBF kernels on features in [-3,3], n 20..60, tol 1e-3..1e-4) with a 2e9-iteration budget; few runs because each takes up to seconds" },
             Batch { name: "svr-f32", count: if q { 1_000 } else { 100_000 }, simulated: false, exhaustive: false, note: "schedule-free, single precision" },
             Batch { name: "kernels", count: if q { 6_000 } else { 600_000 }, simulated: false, exhaustive: false, note: "schedule-free: closed forms, symmetry, PSD of linear/RBF Gram matrices" },
             Batch { name: "kernels-f32", count: if q { 2_000 } else { 200_000 }, simulated: false, exhaustive: false, note: "schedule-free, single precision" },
